@@ -10,7 +10,8 @@ let obs fmt = Printf.printf ("< " ^^ fmt ^^ "\n")
 (* per-case state *)
 let files : (string, handle option) Hashtbl.t = Hashtbl.create 8
 let snaps : (string, (arc list * bool) option) Hashtbl.t = Hashtbl.create 8
-let reset_case () = Hashtbl.reset files; Hashtbl.reset snaps
+let clock : z ref = ref Z0        (* whispertool.Now as replaced by setclock *)
+let reset_case () = Hashtbl.reset files; Hashtbl.reset snaps; clock := Z0
 let get_file name = try Hashtbl.find files name with Not_found -> None
 let set_file name h = Hashtbl.replace files name h
 let take_snap name = match (try Hashtbl.find files name with Not_found -> None) with
@@ -73,20 +74,45 @@ let () =
   register "setmaxret" (fun tk -> match tk with
     | [_; name; v] -> with_file "setmaxret" name (fun h -> set_file name (Some { h with hd_maxret = zi v }); obs "setmaxret ok")
     | _ -> failwith "setmaxret");
+  register "setclock" (fun tk -> match tk with
+    | [_; t] -> clock := zi t; obs "setclock ok"
+    | _ -> failwith "setclock");
+  register "wupd" (fun tk -> match tk with
+    | [_; name; t; v] -> with_file "wupd" name (fun h ->
+        let (h', o) = w_update flocq_fops !clock h (zi t) (z_of_hex v) in
+        set_file name (Some h'); obs "wupd %s" (show_uout o))
+    | _ -> failwith "wupd");
+  register "wmany" (fun tk -> match tk with
+    | _ :: name :: _n :: rest -> with_file "wmany" name (fun h ->
+        let (h', o) = w_update_many flocq_fops !clock h (parse_points rest) in
+        set_file name (Some h'); obs "wmany %s" (show_uout o))
+    | _ -> failwith "wmany");
+  register "wfetch" (fun tk -> match tk with
+    | [_; name; f; u] -> with_file "wfetch" name (fun h -> obs "wfetch %s" (show_fetch (w_fetch !clock h (zi f) (zi u))))
+    | _ -> failwith "wfetch");
   register "upd" (fun tk -> match tk with
     | [_; name; id; t; v; now] -> with_file "upd" name (fun h ->
-        let (h', o) = h_update flocq_fops h (zi id) (zi t) (z_of_hex v) (zi now) in
+        let (h', o) = h_update_clock flocq_fops !clock h (zi id) (zi t) (z_of_hex v) (zi now) in
         set_file name (Some h'); obs "upd %s" (show_uout o))
     | _ -> failwith "upd");
   register "many" (fun tk -> match tk with
     | _ :: name :: id :: now :: _n :: rest -> with_file "many" name (fun h ->
-        let (h', o) = h_update_many flocq_fops h (parse_points rest) (zi id) (zi now) in
+        let (h', o) = h_update_many_clock flocq_fops !clock h (parse_points rest) (zi id) (zi now) in
         set_file name (Some h'); obs "many %s" (show_uout o))
     | _ -> failwith "many");
   register "fetch" (fun tk -> match tk with
     | [_; name; id; f; u; now] -> with_file "fetch" name (fun h ->
-        obs "fetch %s" (show_fetch (h_fetch h (zi id) (zi f) (zi u) (zi now))))
+        obs "fetch %s" (show_fetch (h_fetch_clock !clock h (zi id) (zi f) (zi u) (zi now))))
     | _ -> failwith "fetch");
+  register "fetchk" (fun tk -> match tk with
+    | [_; name; id; f; u; now] -> with_file "fetchk" name (fun h ->
+        match h_fetch h (zi id) (zi f) (zi u) (zi now) with
+        | FSeries s ->
+          let ts = series_times s in
+          let known = List.filter_map (fun (t, v) -> if show_val v = "nan" then None else Some (dec_of_z t ^ ":" ^ show_val v)) (List.combine ts s.s_vals) in
+          obs "fetchk %s %s %s %d [%s]" (dec_of_z s.s_from) (dec_of_z s.s_until) (dec_of_z s.s_step) (List.length s.s_vals) (String.concat " " known)
+        | _ -> obs "fetchk err")
+    | _ -> failwith "fetchk");
   register "dfetch" (fun tk -> match tk with
     | [_; name; id; f; u; now] -> (match get_file name with None -> obs "dfetch openerr" | Some h ->
         match h_dfetch h (zi id) (zi f) (zi u) (zi now) with
